@@ -53,7 +53,7 @@ type Config struct {
 
 // ServeHTTP serves a gzipped response if the client supports it.
 func (g Gzip) ServeHTTP(w http.ResponseWriter, r *http.Request) (int, error) {
-	if !strings.Contains(r.Header.Get("Accept-Encoding"), "gzip") {
+	if !acceptsGzip(r.Header.Get("Accept-Encoding")) {
 		return g.Next.ServeHTTP(w, r)
 	}
 outer:
@@ -112,6 +112,40 @@ outer:
 
 	// no matching filter
 	return g.Next.ServeHTTP(w, r)
+}
+
+// acceptsGzip reports whether an Accept-Encoding header offers gzip:
+// one of its elements names a gzip coding (gzip, x-gzip) and does not
+// refuse it with a zero quality value ("gzip;q=0").
+func acceptsGzip(header string) bool {
+	for _, elem := range strings.Split(header, ",") {
+		parts := strings.Split(elem, ";")
+		if !strings.Contains(parts[0], "gzip") {
+			continue
+		}
+		refused := false
+		for _, param := range parts[1:] {
+			if isZeroQValue(param) {
+				refused = true
+				break
+			}
+		}
+		if !refused {
+			return true
+		}
+	}
+	return false
+}
+
+// isZeroQValue reports whether param is a quality value of zero:
+// q=0, q=0., q=0.0, q=0.00 or q=0.000 (RFC 7231, section 5.3.1).
+func isZeroQValue(param string) bool {
+	param = strings.ToLower(strings.TrimSpace(param))
+	if !strings.HasPrefix(param, "q=") {
+		return false
+	}
+	v := param[2:]
+	return strings.HasPrefix(v, "0") && strings.Trim(v, "0.") == ""
 }
 
 // gzipResponseWriter wraps the underlying Write method
